@@ -689,7 +689,9 @@ func (h *H) enumerateRegion(tag string, s snap, file string, prev, size int, a, 
 			w := h.checkOpen(fmt.Sprintf("%s %s %s at %d (region %d..%d)", tag, mk.name, file, k, prev, size), doAppend, a, b)
 			h.c.Info("images_corrupt_" + mk.name)
 			if !sameFlat && w == 1 {
-				h.c.Info("corrupt_byte_harmless") // e.g. in block padding
+				// the batch survived the corrupted byte: expected only for bytes after the batch (EOF trailer
+				// written by Close / rotation) or in the zero padding at the end of a 32 KiB block
+				h.c.Info("corrupt_byte_harmless:" + tag)
 			}
 		}
 	}
@@ -764,7 +766,11 @@ func (h *H) flush(viaClose bool) {
 				if prev/32768 != (size-1)/32768 || (prev > 0 && prev%32768 > 32768-19) {
 					h.c.NonTrivial("batch-straddles-32KiB-block")
 				}
-				h.enumerateRegion("flush", after, file, prev, size, a, b, true)
+				tag := "flush"
+				if viaClose {
+					tag = "close" // region = batch (if any) + Pebble's EOF trailer
+				}
+				h.enumerateRegion(tag, after, file, prev, size, a, b, true)
 				if npend > 0 {
 					h.c.Label("enumerated-inside-batch-write")
 				}
@@ -950,7 +956,7 @@ func TestPropCrashImages(t *testing.T) {
 const cleanupInterval = 256
 
 func TestPropCleanupSequence(t *testing.T) {
-	stats.Check(t, stats.Budget{Quick: 2, Thorough: 24},
+	stats.Check(t, stats.Budget{Quick: 1, Thorough: 20},
 		"scripted-random history with 256-300 prune-carrying flushes in one session (optional early close+reopen, optional long-lived entry at a far height pinning the first file, 0-2 appends per round), "+
 			"every flush enumerated like TestPropCrashImages; with hook H1 additionally one image per file-system step of the cleanup; non-trivial = the prune watermark file was written and at least one log file was removed",
 		func(rt *rapid.T, c *stats.Case) {
@@ -959,9 +965,14 @@ func TestPropCleanupSequence(t *testing.T) {
 			h.bitFlips = stats.Thorough()
 			rounds := rapid.IntRange(cleanupInterval, cleanupInterval+44).Draw(rt, "rounds")
 			pin := rapid.IntRange(0, 2).Draw(rt, "pin") // 0: nothing pinned, 1: far-future entry in file 1, 2: entry pinned until late
-			reopenAt := -1
-			if rapid.Bool().Draw(rt, "reopenEarly") {
-				reopenAt = rapid.IntRange(1, 30).Draw(rt, "reopenAt")
+			// 0-3 early close+reopen: each leaves one more log file for the cleanup to remove (the per-session
+			// prune-record counter restarts at every reopen, so the rounds are counted from the last one)
+			reopens := map[int]bool{}
+			lastReopen := 0
+			for k, n := 0, rapid.IntRange(0, 3).Draw(rt, "nReopen"); k < n; k++ {
+				at := rapid.IntRange(1, 40).Draw(rt, "reopenAt")
+				reopens[at] = true
+				lastReopen = max(lastReopen, at)
 			}
 			pinHeight := uint64(0)
 			switch pin {
@@ -975,12 +986,9 @@ func TestPropCleanupSequence(t *testing.T) {
 				h.flush(false)
 			}
 			sawWatermark, sawRemoval := false, false
-			total := rounds
-			if reopenAt >= 0 {
-				total += reopenAt // the per-session prune counter restarts on reopen
-			}
+			total := rounds + lastReopen
 			for i := 1; i <= total; i++ {
-				if i == reopenAt {
+				if reopens[i] {
 					h.flush(true)
 					h.reopen()
 				}
@@ -1014,6 +1022,32 @@ func TestPropCleanupSequence(t *testing.T) {
 			}
 			h.flush(true)
 			h.reopen()
+			if rapid.IntRange(0, 2).Draw(rt, "second") == 0 {
+				// a second cleanup, in a session that starts with a watermark file and the files the first one
+				// left: as-is image per flush (+ hook images), no per-offset enumeration
+				h.enumerate = false
+				w0, r0 := h.nWatermarkWrites, h.nRemovedLogs
+				base := h.view.w
+				for i := 1; i <= cleanupInterval+rapid.IntRange(0, 5).Draw(rt, "extra2"); i++ {
+					if rapid.IntRange(0, 3).Draw(rt, "a2") == 0 {
+						h.append(mkEntry(rapid.IntRange(0, nEntryKinds-1).Draw(rt, "kind"), base+uint64(i+rapid.IntRange(0, 2).Draw(rt, "dh")), 0, 2, uint64(i)))
+					}
+					h.prune(base + uint64(i))
+					h.flush(false)
+				}
+				if h.nWatermarkWrites == w0 {
+					h.fail("cleanup-never-ran", "second session: %d prune records flushed but the watermark was not rewritten", cleanupInterval)
+				}
+				if h.nRemovedLogs > r0 {
+					c.Label("second-cleanup-removed-files")
+				}
+				c.Label("second-cleanup")
+				h.enumerate = true
+				h.append(mkEntry(3, h.view.w+1, 0, 1, 1))
+				h.flush(false)
+				h.flush(true)
+				h.reopen()
+			}
 			if sawWatermark {
 				c.Label("watermark-written")
 			}
